@@ -62,6 +62,15 @@ def small_specs(ctx, n):
         while b == 0 or (j % 2 == 0 and (a.denominator != 1 or b.denominator != 1)):     # even j: integer a and b
             mm, a, b = laws.affine(r2, m)
         specs.append(mk_pair(len(specs), "affine", m, mm, a=a, b=b, label="small; integer-typed utility"))
+    # the FILTER-RESTRICTED states made stochastic with one-hot rows: labels of probability zero include states the filter excludes
+    r3 = ctx.rng("restricted-state-degenerate")
+    k = 0
+    while k < max(4, n // 12):
+        m = gen.rand_model(r3, {**SMALL, "T": [2, 3], "p_r": 1.0, "p_per_filter": 0.5, "p_h_stoch": 0.0, "p_e": 0.0, "p_z": 0.0})
+        ms = laws.deterministic_to_degenerate(m)
+        if ms is not None:
+            specs.append(mk_pair(len(specs), "degenerate-stochastic", ms, m, label="small; restricted state with one-hot stochastic transition"))
+            k += 1
     return specs
 
 
